@@ -6,7 +6,14 @@ WALKS_Q = ["--walks", "150", "--walk-len", "300", "--walk-avoid", "readfile/dir"
 WALKS_T = ["--walks", "1500", "--walk-len", "400", "--walk-avoid", "readfile/dir"]
 
 
+def fscore_small(ctx):
+    # call paths of depth 3 (operations two levels below a regular file, deep renames) and Chtimes / two permission values
+    graph_stage(ctx, "fscore-deep", "MC_FSCore.tla", "FSCore.deep.cfg", "fscore", FS_ADAPTERS, ["--names", "a,b", "--depth", "4"], workers=4)
+    graph_stage(ctx, "fscore-times", "MC_FSCore.tla", "FSCore.times.cfg", "fscore", FS_ADAPTERS, ["--names", "a", "--depth", "3"], workers=4)
+
+
 def fscore_stages(ctx):
+    fscore_small(ctx)
     if ctx.tier == "quick":
         graph_stage(ctx, "fscore-quick", "MC_FSCore.tla", "FSCore.quick.cfg", "fscore", FS_ADAPTERS, ["--names", "a,b", "--depth", "3"] + WALKS_Q)
     else:
